@@ -1100,7 +1100,7 @@ def quoted_slot_lint(ctx: Any, mod: Any, quals: Sequence[str], escapers: Sequenc
         fn = mod.func(qual)
         cls = qual.split('.')[0] if '.' in qual else None
         for c in ast.walk(fn):
-            if not (isinstance(c, ast.Call) and isinstance(c.func, ast.Attribute) and c.func.attr == 'write' and c.args):
+            if not (isinstance(c, ast.Call) and isinstance(c.func, ast.Attribute) and c.func.attr in ('write', 'writelines') and c.args):
                 continue
             for js in [x for x in ast.walk(c.args[0]) if isinstance(x, ast.JoinedStr)]:
                 inq = False
@@ -1333,6 +1333,23 @@ def m2_particles(ctx: Any, prog: Program) -> None:
     else:
         ctx.check('C20.M2', all(any("'name'" in U(i) for g in n.generators for i in g.ifs) for n in opts), mod, opts[0],
                   'the element name is an ordinary DMX attribute: parse must leave it out of the options (it is stored in .name), otherwise a parsed particle differs from the exported one', func='Particle.parse', text='particle name not in options')
+    # ... nor the function name: Operator.function holds it and export() writes it from there, so it is taken OUT of the element (pop) before the
+    # remaining attributes become the options - or left out by the filter, which sees the case-folded keys Element.items() yields (a constant
+    # with a capital letter in that filter can never match)
+    for oc in opts:
+        keyvar = oc.generators[0].target.elts[0].id if isinstance(oc.generators[0].target, ast.Tuple) and isinstance(oc.generators[0].target.elts[0], ast.Name) else None
+        consts = [k for g in oc.generators for i in g.ifs for k in ast.walk(i) if isinstance(k, ast.Constant) and isinstance(k.value, str)]
+        for k in consts:
+            ctx.check('C20.M2', k.value == k.value.casefold(), mod, k, f'the option filter compares the key with {k.value!r}: Element.items() yields case-folded keys, so this never matches and the attribute stays among the options',
+                      func='Particle.parse', text=f'particle option filter constant {k.value}')
+    op_ctors = [c for c in ast.walk(par) if isinstance(c, ast.Call) and dotted(c.func) == 'Operator' and len(c.args) >= 3 and isinstance(c.args[2], ast.DictComp)]
+    for oc_ in op_ctors:
+        fn_arg = oc_.args[1]
+        popped = any(isinstance(x, ast.Call) and isinstance(x.func, ast.Attribute) and x.func.attr == 'pop' and x.args and isinstance(x.args[0], ast.Constant) and str(x.args[0].value).casefold() == 'functionname' for x in ast.walk(fn_arg))
+        filtered = any(isinstance(k, ast.Constant) and k.value == 'functionname' for g in oc_.args[2].generators for i in g.ifs for k in ast.walk(i))
+        ctx.check('C20.M2', popped or filtered, mod, oc_, 'Particle.parse reads the operator\'s functionName without removing it from the element or filtering it out: every parsed Operator carries an extra option '
+                  '`functionname` - a particle written and read back has one option more than was written, and export() lets that stale copy overwrite an edited Operator.function', func='Particle.parse', text='particle function name not in options')
+    ctx.shape('C20.M2', len(op_ctors) >= 1, mod, par, 'no Operator(name, function, {options}) construction found in Particle.parse', func='Particle.parse', text='particle operator construction')
     def _folded_attr(e: ast.AST) -> Optional[str]:
         # <x>.<attr>.casefold()  ->  attr
         if isinstance(e, ast.Call) and isinstance(e.func, ast.Attribute) and e.func.attr == 'casefold' and isinstance(e.func.value, ast.Attribute):
@@ -1534,6 +1551,10 @@ def m5_tables(ctx: Any, prog: Program) -> None:
 
 
 MUTANTS: List[Dict[str, Any]] = [
+    {'id': 'operator_function_name_left_in_options', 'file': 'particles.py', 'find': "Operator(ele.name, ele.pop('functionName').val_str, {", 'replace': "Operator(ele.name, ele['functionName'].val_str, {", 'expect': 'C20.M2'},
+    {'id': 'ok_operator_function_name_filtered_folded', 'file': 'particles.py', 'find': "Operator(ele.name, ele.pop('functionName').val_str, {", 'replace': "Operator(ele.name, ele['functionName'].val_str, {", 'extra': [{'file': 'particles.py', 'find': "                    if key != 'name'  # Stored in Operator.name.", 'replace': "                    if key not in ('name', 'functionname')"}], 'expect': None, 'refuse_ok': True},
+    {'id': 'rndwave_list_written_unescaped_in_one_go', 'file': 'sndscript.py', 'find': "            for wav in self.sounds:\n                file.write(f'\\t\\twave \"{escape_text(wav)}\"\\n')\n", 'replace': "            file.writelines([f'\\t\\twave \"{wav}\"\\n' for wav in self.sounds])\n", 'expect': 'C20.M2'},
+    {'id': 'ok_rndwave_list_written_in_one_go', 'file': 'sndscript.py', 'find': "            for wav in self.sounds:\n                file.write(f'\\t\\twave \"{escape_text(wav)}\"\\n')\n", 'replace': "            file.writelines([f'\\t\\twave \"{escape_text(wav)}\"\\n' for wav in self.sounds])\n", 'expect': None, 'refuse_ok': True},
     {'id': 'param3_needs_param2', 'file': 'choreo.py', 'find': "        if self.parameters[2]:\n            file.write(f'{indent} param3", 'replace': "        if self.parameters[1] and self.parameters[2]:\n            file.write(f'{indent} param3", 'expect': 'C20.M2'},
     {'id': 'param_loop_breaks', 'file': 'choreo.py', 'find': "        file.write(f'{indent} param \"{escape_text(self.parameters[0])}\"\\n')\n        if self.parameters[1]:\n            file.write(f'{indent} param2 \"{escape_text(self.parameters[1])}\"\\n')\n        if self.parameters[2]:\n            file.write(f'{indent} param3 \"{escape_text(self.parameters[2])}\"\\n')\n", 'replace': "        for key, ind in PARAM_KEY_INDEXES.items():\n            if ind > 0 and not self.parameters[ind]:\n                break\n            file.write(f'{indent} {key} \"{escape_text(self.parameters[ind])}\"\\n')\n", 'expect': 'C20.M2'},
     {'id': 'ok_param_loop_continues', 'file': 'choreo.py', 'find': "        file.write(f'{indent} param \"{escape_text(self.parameters[0])}\"\\n')\n        if self.parameters[1]:\n            file.write(f'{indent} param2 \"{escape_text(self.parameters[1])}\"\\n')\n        if self.parameters[2]:\n            file.write(f'{indent} param3 \"{escape_text(self.parameters[2])}\"\\n')\n", 'replace': "        for key, ind in PARAM_KEY_INDEXES.items():\n            if ind > 0 and not self.parameters[ind]:\n                continue\n            file.write(f'{indent} {key} \"{escape_text(self.parameters[ind])}\"\\n')\n", 'expect': None, 'refuse_ok': True, 'note': 'negative control: loop form that visits every slot'},
